@@ -124,6 +124,10 @@ func (c17) Gen(r *rand.Rand, tier string, idx int) *core.Plan {
 	w["deadline"] = int64(core.Pick(r, 10*time.Millisecond, time.Second, time.Minute, 10*time.Minute))
 	w["cancelAt"] = int64(core.Pick(r, time.Duration(0), time.Millisecond, 700*time.Millisecond, 30*time.Second))
 	w["sleepBeforeOutput"] = int64(r.IntN(2))
+	if w["timing"] == 1 && w["ctx"] == 1 && r.IntN(3) == 0 {
+		// the plugin exits (as scripted) at the very instant the deadline expires
+		w["sleep"] = w["deadline"]
+	}
 	w["prelude"] = int64(r.IntN(4) / 3)
 	w["padSpace"] = int64(r.IntN(2))
 	w["sigpipe"] = int64(r.IntN(3) / 2)
@@ -687,7 +691,9 @@ func (l c17) Exec(env *core.Env) *core.Result {
 		res.Probe("well_behaved_plugin_rejected")
 	}
 	// (c) a process that failed on its own, promptly, with small output
-	if exit != 0 && !cancelledBeforeReturn && rec.Written[1] < 1<<20 && rec.Written[2] < 1<<20 && callErr != nil {
+	// (also when the context ended at the very instant the process exited, or later: it was not killed, it failed)
+	failedOnItsOwn := !cancelledBeforeReturn || (rec.ExitSim > 0 && !rec.Killed && rec.ExitSim <= cancelSim)
+	if exit != 0 && failedOnItsOwn && rec.Written[1] < 1<<20 && rec.Written[2] < 1<<20 && callErr != nil {
 		var re proto.RequestError
 		var pe *plugin.PluginExecutableFileError
 		var pm *plugin.PluginMalformedError
